@@ -81,7 +81,8 @@ def run_one(exe, d, cf, seed):
         big = bool(cf.get("big"))
         p = rhdparams.ion_param(d, ncell=(24, 24, 24) if big else (8, 8, 8), nsub=(1, 1, 1) if big else (2, 2, 2), nphoton=5000, niter=2,
                                 diffuse=bool(cf["diffuse"]),
-                                continuous=bool(cf["continuous"]), copy_level=cf["copy"], seed=seed, extra=extra)
+                                continuous=bool(cf["continuous"]), copy_level=cf["copy"], seed=seed, extra=extra,
+                                luminosity=0. if cf.get("lum0") else 1.0e46)
         if cf.get("gadget"):
             ptxt = open(p).read().replace("type: AsciiFile", "type: Gadget")
             open(p, "w").write(ptxt)
@@ -193,7 +194,7 @@ def run(c):
         cand = [x for x in cfgs if x["mode"] == mode]
         must.append(rng.choice(cand))
         if mode == "ion":
-            for key in ("diffuse", "continuous", "trackers", "plot", "gadget"):
+            for key in ("diffuse", "continuous", "trackers", "plot", "gadget", "lum0"):
                 must.append(rng.choice([x for x in cand if x[key] == 1]))
             must.append(rng.choice([x for x in cand if x["gadget"] == 1 and x["big"] == 1 and x["nthr"] == 4]))
         else:
@@ -216,7 +217,7 @@ def run(c):
         if k not in seen:
             seen.add(k)
             sample.append(x)
-    nrun = 30 if tier == "quick" else 300
+    nrun = 36 if tier == "quick" else 300
     rest = [x for x in cfgs if json.dumps(x, sort_keys=True) not in seen]
     sample = sample[:nrun] if tier == "quick" else sample + rng.sample(rest, min(len(rest), nrun - len(sample)))
 
